@@ -114,7 +114,21 @@ def run(ctx):
                 continue
             p = w.dict_provenance(dexp)
             if p is None:
-                o.undecided(f"dictionary `{txt(dexp)}` passed to {txt(call.func)} not recognised", fn, call)
+                # the table is filled for SOME rows only:  for n, jd in enumerate(col): if <test on the row>: D[n] = jd
+                part = None
+                if isinstance(dexp, ast.Name):
+                    for st_ in [n for n in astx.walk_fn(w.fn.node) if isinstance(n, ast.Assign) and len(n.targets) == 1 and isinstance(n.targets[0], ast.Subscript)
+                                and txt(n.targets[0].value) == dexp.id]:
+                        lps_ = w.par.loops_of(st_)
+                        if len(lps_) == 1:
+                            cs_ = [t_ for t_, _ in rules.path_conditions(w.par, st_, upto=lps_[0]) if astx.names_in(t_) & astx.names_in(lps_[0].target)]
+                            if cs_:
+                                part = (st_, cs_[0])
+                if part is not None:
+                    o.violated(fn, part[0], f"`{txt(part[0])}` runs only when `{txt(part[1])[:60]}`: the rows for which it is false never get NetworkNames.{mem}, "
+                                            "so readers of the annotation fail (KeyError) or see a shorter column than there are vertices / edges", shape_free=True)
+                else:
+                    o.undecided(f"dictionary `{txt(dexp)}` passed to {txt(call.func)} not recognised", fn, call)
                 continue
             ksrc, vsrc, site, _ = p
             want_col = SPEC.get(mem)
